@@ -114,6 +114,11 @@ pub enum FutKind {
     CancelInPoll,
     /// On its second poll wakes itself three times, returns Pending, then completes.
     SelfWake3,
+    /// Like `CancelInPoll`, and the future keeps a clone of its own waker
+    /// (released when the future is dropped, possibly as the last reference).
+    CancelInPollKeepWaker,
+    /// Keeps a clone of its own waker and never completes.
+    NeverKeepWaker,
 }
 
 struct Scripted {
@@ -121,6 +126,7 @@ struct Scripted {
     kind: FutKind,
     seen: usize,
     cell: UnsafeCell<u32>,
+    own_waker: Option<Waker>,
 }
 
 impl Future for Scripted {
@@ -136,6 +142,9 @@ impl Future for Scripted {
         self.seen += 1;
         if self.seen == 1 {
             *fx.waker.lock().unwrap() = Some(cx.waker().clone());
+            if matches!(self.kind, FutKind::CancelInPollKeepWaker | FutKind::NeverKeepWaker) {
+                self.own_waker = Some(cx.waker().clone());
+            }
         }
         let seen = self.seen;
         let r = match self.kind {
@@ -147,8 +156,8 @@ impl Future for Scripted {
                     Poll::Pending
                 }
             }
-            FutKind::Never => Poll::Pending,
-            FutKind::CancelInPoll => {
+            FutKind::Never | FutKind::NeverKeepWaker => Poll::Pending,
+            FutKind::CancelInPoll | FutKind::CancelInPollKeepWaker => {
                 if seen == 2 {
                     cx.waker().wake_by_ref();
                     if let Some(t) = fx.token.lock().unwrap().take() {
@@ -274,7 +283,7 @@ fn do_op(h: &mut Hands, op: Op) {
 
 fn run_program(p: &Program) {
     let fx = Arc::new(Fx::default());
-    let fut = Scripted { fx: fx.clone(), kind: p.fut, seen: 0, cell: UnsafeCell::new(0) };
+    let fut = Scripted { fx: fx.clone(), kind: p.fut, seen: 0, cell: UnsafeCell::new(0), own_waker: None };
     let (promise, runnable, token) = if p.forget {
         let (r, t) = spawn_and_forget(fut, schedule, ());
         (None, r, t)
@@ -290,7 +299,7 @@ fn run_program(p: &Program) {
         None => (None, None),
     };
     let mut token = Some(token);
-    if p.fut == FutKind::CancelInPoll {
+    if matches!(p.fut, FutKind::CancelInPoll | FutKind::CancelInPollKeepWaker) {
         *fx.token.lock().unwrap() = token.take();
     }
     let mut ha = Hands { waker: wa, token, promise: None, cancel_tick: 0, last_wake: 0, got_output: false };
@@ -368,7 +377,12 @@ fn run_program(p: &Program) {
         drop(r);
     }
     let fd = fx.fut_drops.load(O::SeqCst);
-    assert_eq!(fd, 1, "[release] the future was dropped {} times", fd);
+    let cycle = matches!(p.fut, FutKind::CancelInPollKeepWaker | FutKind::NeverKeepWaker) && !cancelled && !done;
+    if cycle {
+        assert!(fd <= 1, "[release] the future was dropped {} times", fd);
+    } else {
+        assert_eq!(fd, 1, "[release] the future was dropped {} times", fd);
+    }
     let od = fx.out_drops.load(O::SeqCst);
     assert_eq!(od, if done { 1 } else { 0 }, "[release] the output was dropped {} times (completed: {})", od, done);
     outcome(format!("polls={} done={} cancelled={} out={}", fx.polls.load(O::SeqCst), done, cancelled, hb.got_output));
@@ -377,7 +391,7 @@ fn run_program(p: &Program) {
 /// Sequential program: every operation is performed by this thread, in order.
 fn run_sequential(forget: bool, fut: FutKind, ops: &[Op]) {
     let fx = Arc::new(Fx::default());
-    let f = Scripted { fx: fx.clone(), kind: fut, seen: 0, cell: UnsafeCell::new(0) };
+    let f = Scripted { fx: fx.clone(), kind: fut, seen: 0, cell: UnsafeCell::new(0), own_waker: None };
     let (promise, runnable, token) = if forget {
         let (r, t) = spawn_and_forget(f, schedule, ());
         (None, r, t)
@@ -387,7 +401,11 @@ fn run_sequential(forget: bool, fut: FutKind, ops: &[Op]) {
     };
     runnable.run();
     let waker = fx.waker.lock().unwrap().take();
-    let mut h = Hands { waker, token: Some(token), promise, cancel_tick: 0, last_wake: 0, got_output: false };
+    let mut token = Some(token);
+    if matches!(fut, FutKind::CancelInPoll | FutKind::CancelInPollKeepWaker) {
+        *fx.token.lock().unwrap() = token.take();
+    }
+    let mut h = Hands { waker, token, promise, cancel_tick: 0, last_wake: 0, got_output: false };
     let mut runnable_dropped = false;
     for op in ops {
         match op {
@@ -397,6 +415,10 @@ fn run_sequential(forget: bool, fut: FutKind, ops: &[Op]) {
                     r.run();
                     if h.cancel_tick != 0 {
                         assert_eq!(fx.polls.load(O::SeqCst), before, "[after_cancel] the future was polled after cancel() had returned");
+                    }
+                    if fx.cancelled_in_poll.load(O::SeqCst) != 0 {
+                        // Cancelled from inside poll: from now on the task counts as cancelled.
+                        h.cancel_tick = fx.cancelled_in_poll.load(O::SeqCst);
                     }
                 }
             }
@@ -441,7 +463,19 @@ fn run_sequential(forget: bool, fut: FutKind, ops: &[Op]) {
     fx.token.lock().unwrap().take();
     fx.waker.lock().unwrap().take();
     let fd = fx.fut_drops.load(O::SeqCst);
-    assert_eq!(fd, 1, "[release] the future was dropped {} times", fd);
+    // A future that keeps its own waker forms a reference cycle with its task:
+    // unless the task was cancelled or its Runnable dropped it is never
+    // released (by design, not a defect); it must still not be dropped twice.
+    let cycle = matches!(fut, FutKind::CancelInPollKeepWaker | FutKind::NeverKeepWaker)
+        && h.cancel_tick == 0
+        && fx.cancelled_in_poll.load(O::SeqCst) == 0
+        && !runnable_dropped
+        && !done;
+    if cycle {
+        assert!(fd <= 1, "[release] the future was dropped {} times", fd);
+    } else {
+        assert_eq!(fd, 1, "[release] the future was dropped {} times", fd);
+    }
     let od = fx.out_drops.load(O::SeqCst);
     assert_eq!(od, if done { 1 } else { 0 }, "[release] the output was dropped {} times (completed: {})", od, done);
     outcome(format!("polls={} done={}", fx.polls.load(O::SeqCst), done));
@@ -480,11 +514,11 @@ fn sequential_item(depth: usize, name: &str) -> Item {
     use Op::*;
     let alpha = [Run, WakeRef, WakeVal, CloneWake, Cancel, DropToken, PollPromise, DropPromise, DropRunnable, DropWaker];
     let all = seqs(&alpha, depth);
-    let name = format!("{} ({} programs x 2 spawn kinds x 3 futures)", name, all.len());
+    let name = format!("{} ({} programs x 2 spawn kinds x 5 futures)", name, all.len());
     Item::new(name, 1, 1, move || {
         // One loom model per program (each is a single-threaded execution).
         for forget in [false, true] {
-            for fut in [FutKind::Pending(1), FutKind::Pending(2), FutKind::Never] {
+            for fut in [FutKind::Pending(1), FutKind::Pending(2), FutKind::Never, FutKind::CancelInPollKeepWaker, FutKind::NeverKeepWaker] {
                 for ops in &all {
                     let ops = ops.clone();
                     loom::model(move || {
@@ -518,6 +552,9 @@ fn programs(thorough: bool) -> Vec<Item> {
         prog(false, SelfWake3, &[WakeRef], &[], 3),
         prog(false, Never, &[CloneWake, CloneWake], &[CloneWake], 2),
         prog(false, Pending(1), &[DropToken], &[DropPromise, WakeVal], 2),
+        prog(true, CancelInPollKeepWaker, &[WakeRef, DropWaker], &[DropWaker], 2),
+        prog(false, NeverKeepWaker, &[Cancel, DropWaker], &[WakeRef, DropPromise, DropWaker], 2),
+        prog(true, NeverKeepWaker, &[WakeRef, Cancel, DropWaker], &[DropWaker], 2),
     ];
     for p in core {
         v.push(program_item(p, 2, 3));
